@@ -21,7 +21,7 @@ deriving DecidableEq, Repr, Inhabited
 
 /-- The builtins the core model knows (printed as `std.<name>(args)`). -/
 inductive Builtin where
-  | length | type_ | trace | objectHasEx | objectFieldsEx
+  | length | type_ | trace | objectHasEx | objectFieldsEx | map | makeArray
 deriving DecidableEq, Repr, Inhabited
 
 mutual
@@ -137,6 +137,7 @@ def parseVis : String → Option Vis
 def parseBuiltin : String → Option Builtin
   | "length" => some .length | "type" => some .type_ | "trace" => some .trace
   | "objectHasEx" => some .objectHasEx | "objectFieldsEx" => some .objectFieldsEx
+  | "map" => some .map | "makeArray" => some .makeArray
   | _ => none
 
 def hexNat (s : String) : Option Nat :=
